@@ -33,7 +33,7 @@ pub static DEF: PropDef = PropDef {
         "the transport (QUIC, certificate pinning) is not part of this check; a live relay of the challenge to the genuine key holder is out of reach",
         "distinctness of tokens between pairs is a 56-bit hash property: sampled only",
     ],
-    cases: |t| t.pick(40, 600),
+    cases: |t| t.pick(96, 600),
     shards: |t| t.pick(10, 16),
     case_budget_s: |_| 300,
     min_conclusive: |t| t.pick(15, 200),
